@@ -1,7 +1,6 @@
 /// Transform Rust paths to a readable and comparable string.
 ///
 /// # Limitations
-/// * Leading colons are ignored.
 /// * Angle brackets and `as` elements are ignored.
 /// * A raw identifier (`r#type`) reads as the name it stands for (`type`).
 ///
@@ -10,16 +9,26 @@
 /// # use darling_core::util::path_to_string;
 /// # use syn::parse_quote;
 /// assert_eq!(path_to_string(&parse_quote!(a::b)), "a::b");
+/// // a global path is a different path
+/// assert_eq!(path_to_string(&parse_quote!(::a::b)), "::a::b");
 /// ```
 pub fn path_to_string(path: &syn::Path) -> String {
     use syn::ext::IdentExt;
 
-    path.segments
+    let segments = path
+        .segments
         .iter()
         // `r#type` is how the name `type` has to be written; it is the same name.
         .map(|s| s.ident.unraw().to_string())
         .collect::<Vec<String>>()
-        .join("::")
+        .join("::");
+
+    // `::a` is not `a`: comparing the two as equal let `#[x(::a = 1)]` set a field named `a`.
+    if path.leading_colon.is_some() {
+        format!("::{}", segments)
+    } else {
+        segments
+    }
 }
 
 #[cfg(test)]
